@@ -36,7 +36,10 @@ where
 {
     fn solve(&self, _solver: &Solver<U, E>, state: State<U, E>) -> Stream<U, E> {
         let u = self.u.clone();
-        match DistinctFdConstraint::new(u).run(state) {
+        match DistinctFdConstraint::new(u)
+            .run(state)
+            .and_then(State::run_constraints)
+        {
             Ok(state) => Stream::unit(Box::new(state)),
             Err(_) => Stream::empty(),
         }
